@@ -58,6 +58,29 @@ Theorem C25_flagged_flush_reported : forall fk h rc l,
   check_synced fk l = COk (Some (mark_of CLEAN (r_id rc))).
 Proof. exact flagged_flush_reported. Qed.
 
+(* Initialize(names, f) with an expected flush ID f (CheckDBsSynced started with flushID = f): an OK
+   verdict reports f itself and has the same meaning; "no flush" is never reported then. *)
+Theorem C25_pool_crash_consistent_expected : forall fk scale h k l f m,
+  history_avoids fk h = true ->
+  lists_world l (crash (rs_log (run_pool fk scale h)) k) -> l <> [] ->
+  check_loop fk l (Some f) false = COk (Some m) ->
+  m = f /\
+  exists rc, In rc (rs_recs (run_pool fk scale h)) /\ (r_pos rc <= k)%nat /\ m = mark_of CLEAN (r_id rc) /\
+    forall n c, wget n (crash (rs_log (run_pool fk scale h)) k) = Some c ->
+      match wget n (r_snap rc) with Some s => db_eq c s | None => db_empty c end.
+Proof. exact pool_crash_consistent_expected. Qed.
+Theorem C25_flagged_crash_consistent_expected : forall fk h k l f m,
+  history_avoids fk h = true -> flush_ids_change None h = true ->
+  lists_world l (crash (fr_log (run_flagged fk h)) k) -> l <> [] ->
+  check_loop fk l (Some f) false = COk (Some m) ->
+  m = f /\
+  exists rc, In rc (fr_recs (run_flagged fk h)) /\ (r_pos rc <= k)%nat /\ m = mark_of CLEAN (r_id rc) /\
+    forall n c, wget n (crash (fr_log (run_flagged fk h)) k) = Some c ->
+      match wget n (r_snap rc) with Some s => db_eq c s | None => db_empty c end.
+Proof. exact flagged_crash_consistent_expected. Qed.
+Theorem C25_expected_never_none : forall fk l f, check_loop fk l (Some f) false <> COk None.
+Proof. exact check_expected_not_none. Qed.
+
 (* Recovery reads the verdict off the marks alone: an OK verdict means every surviving database
    carries exactly that (non-dirty) mark, "no flush" means no database carries a mark. *)
 Theorem C25_check_ok_some : forall fk l m,
@@ -99,6 +122,9 @@ Proof. exact flagged_same_id_counterexample. Qed.
 Print Assumptions C25_pool_crash_consistent.
 Print Assumptions C25_flagged_crash_consistent.
 Print Assumptions C25_flagged_crash_consistent_any_ids.
+Print Assumptions C25_pool_crash_consistent_expected.
+Print Assumptions C25_flagged_crash_consistent_expected.
+Print Assumptions C25_expected_never_none.
 Print Assumptions C25_pool_flush_reported.
 Print Assumptions C25_flagged_flush_reported.
 Print Assumptions C25_check_ok_some.
